@@ -80,7 +80,7 @@ def judge(rs):
 
 def run(ctx):
     H = 3 if ctx.quick else 4
-    items = base_programs(ctx, 300 if ctx.quick else 2500)
+    items = base_programs(ctx, 300 if ctx.quick else 1200)
     inputs = []
     for p, f, w in items:
         inputs += variants(p, f, w)
